@@ -340,6 +340,9 @@ fn success_runs(ctx: &mut Ctx, rng: &mut Rng, dir: &Path) {
         1 => "inst.af ".to_string(),
         2 => "help".to_string(),
         3 => "inst.apx\t".to_string(),
+        // the extension says nothing about the format: an ICCMA'23 instance may be called x.apx, an
+        // Aspartix one x.af (the reader is chosen by -r / by the wrapper, never by the name)
+        4 => if inst.apx { "inst.af".to_string() } else { "inst.apx".to_string() },
         _ => if inst.apx { "inst.apx".to_string() } else { "inst.af".to_string() },
     };
     if fname != "inst.apx" && fname != "inst.af" {
@@ -403,8 +406,14 @@ fn success_runs(ctx: &mut Ctx, rng: &mut Rng, dir: &Path) {
                 args.push(if rng.pct(50) { "-c" } else { "--with-certificate" }.into());
             }
             if level != "default" {
-                args.push("--logging-level".into());
-                args.push(level.into());
+                // both spellings of an option with a value: two words, or one word with '='
+                if rng.pct(30) {
+                    args.push(format!("--logging-level={}", level));
+                    ctx.count("success_runs/option-spelled-with-equals-sign");
+                } else {
+                    args.push("--logging-level".into());
+                    args.push(level.into());
+                }
             } else {
                 ctx.count("success_runs/no-logging-level-flag");
             }
